@@ -37,6 +37,22 @@ pub extern "C" fn plugin_take_vec(v: CVec<u64>) -> u64 {
     v.iter().sum()
 }
 #[no_mangle]
+pub extern "C" fn plugin_grow_vec(v: CVec<u64>, k: u64) -> CVec<u64> {
+    xapi::grow_vec(v, k)
+}
+/// a reference-counted value allocated here
+#[no_mangle]
+pub extern "C" fn plugin_arc() -> CArc<c_void> {
+    CArc::from(xapi::vmon::Tracked::new()).into_opaque()
+}
+/// clones the handle it is given in this module, releases the original, returns the clone
+#[no_mangle]
+pub extern "C" fn plugin_arc_clone_drop(a: CArc<c_void>) -> CArc<c_void> {
+    let c = a.clone();
+    drop(a);
+    c
+}
+#[no_mangle]
 pub extern "C" fn plugin_marks() -> [u64; 2] {
     [xapi::vmon::tracked::mark(), xapi::vmon::alloc::seq()]
 }
